@@ -1338,7 +1338,19 @@ def run_excpoints(cfg, tape, want_trace=False):
     if base_run is not None and n_ops > k0:
         cand = list(range(k0, n_ops))
         npts = len(cand) if cfg.get('crashpoints') == 'all' else min(6, len(cand))
-        for _ in range(npts):
+        if cfg.get('crashpoints') != 'all':
+            # two of the sampled points land on operations on the files all entries share (the
+            # annotations file, the log, dataset copies and their index)
+            shared = [i for (i, _p, kd, rp) in fs0.op_log
+                      if k0 <= i < n_ops and kd in ('write', 'rename', 'creat.w', 'open.a') and
+                      (os.path.basename(rp).startswith('annotations') or '/.datasets/' in rp or
+                       rp.endswith('log.csv'))]
+            for _ in range(min(2, len(shared))):
+                k_ = shared.pop(tape.draw(len(shared), 'exc.shared'))
+                if k_ in cand:
+                    cand.remove(k_)
+                    points.append(k_)
+        for _ in range(max(0, npts - len(points))):
             points.append(cand.pop(tape.draw(len(cand), 'exc.point')))
         points.sort()
     for k in points:
@@ -1528,15 +1540,21 @@ def run_journal(cfg, tape, want_trace=False):
             important = []
             for k in range(k0 + 1, len(journal)):
                 prev = journal[k - 1]
-                if prev[0] in ('creat.x', 'unlink', 'symlink') or prev[1].endswith('.datainfo') or \
-                        '.hash' in prev[1] or (prev[0] == 'creat.w' and prev[1].endswith('annotations')):
+                cur = journal[k]
+                if prev[0] in ('creat.x', 'unlink', 'symlink', 'rename') or prev[1].endswith('.datainfo') or \
+                        '.hash' in prev[1] or (prev[0] == 'creat.w' and prev[1].endswith('annotations')) or \
+                        (cur[0] == 'write' and ('/.datasets/' in cur[1] or
+                                                os.path.basename(cur[1]).startswith('annotations'))) or \
+                        (prev[0] == 'write' and '/.datasets/' in prev[1]):
+                    # (also: inside / right after the writes of the shared files - dataset copies,
+                    # the annotations file - whose half-written state later stores must survive)
                     important.append((k, None))
             picked = []
-            for _ in range(3):
+            for _ in range(4):
                 if important:
                     picked.append(important.pop(tape.draw(len(important), 'crash.important')))
             rest = [p for p in points if p not in picked]
-            for _ in range(5):
+            for _ in range(4):
                 if rest:
                     picked.append(rest.pop(tape.draw(len(rest), 'crash.point')))
             points = sorted(set(picked), key=lambda p: (p[0], p[1] or 0))
